@@ -317,7 +317,8 @@ LIMITS = {
     'long long': ('LLONG_MIN', 'LLONG_MAX'),
     'uint8_t': ('0', 'UINT8_MAX'), 'uint16_t': ('0', 'UINT16_MAX'),
     'uint32_t': ('0', 'UINT32_MAX'), 'uint64_t': ('0', 'UINT64_MAX'),
-    'size_t': ('0', 'SIZE_MAX'), 'unsigned long': ('0', 'ULONG_MAX'),
+    'size_t': ('0', 'SIZE_MAX'), 'unsigned long': ('0', 'ULONG_MAX'), 'unsigned int': ('0', 'UINT_MAX'), 'unsigned': ('0', 'UINT_MAX'), 'char': ('CHAR_MIN', 'CHAR_MAX'),
+    'uint_fast8_t': ('0', 'UINT_FAST8_MAX'), 'double': ('(-DBL_MAX)', 'DBL_MAX'), 'unsigned long long': ('0', 'ULLONG_MAX'), 'std::size_t': ('0', 'SIZE_MAX'),
     'T': ('VERIF_T_MIN', 'VERIF_T_MAX'), 'TValue': ('VERIF_TVALUE_MIN', 'VERIF_TVALUE_MAX'),
     'changeset_id_type': ('0', 'UINT32_MAX'), 'user_id_type': ('0', 'UINT32_MAX'),
     'object_version_type': ('0', 'UINT32_MAX'), 'object_id_type': ('INT64_MIN', 'INT64_MAX'),
